@@ -37,6 +37,7 @@ import (
 	seccomp "github.com/elastic/go-seccomp-bpf"
 	"github.com/elastic/go-seccomp-bpf/arch"
 	"golang.org/x/net/bpf"
+	"verifharness/watch"
 
 	"verifharness/bpfvm"
 	"verifharness/polcase"
@@ -102,7 +103,26 @@ func fail(f failure) {
 // compileCount numbers the compilations; every third one runs under another execution domain (see compile).
 var compileCount int
 
-func compile(pol *seccomp.Policy) (insts []bpf.Instruction, err error, pan interface{}) {
+type compiled struct {
+	insts []bpf.Instruction
+	err   error
+	pan   interface{}
+}
+
+// compile bounds the call (watch.Do): a compilation that does not return neither accepts nor rejects the policy (C07).
+func compile(pol *seccomp.Policy) ([]bpf.Instruction, error, interface{}) {
+	compileCount++
+	x, hung := watch.Do(func() compiled {
+		insts, err, pan := compile1(pol, compileCount)
+		return compiled{insts, err, pan}
+	})
+	if hung != "" {
+		return nil, nil, hung
+	}
+	return x.insts, x.err, x.pan
+}
+
+func compile1(pol *seccomp.Policy, compileCount int) (insts []bpf.Instruction, err error, pan interface{}) {
 	defer func() {
 		if r := recover(); r != nil {
 			pan = r
@@ -111,7 +131,6 @@ func compile(pol *seccomp.Policy) (insts []bpf.Instruction, err error, pan inter
 	// What a policy compiles to is a function of the policy (and, for the architecture left unset, of the CPU target the library
 	// was built for) - not of what the process is told about the machine: every third compilation runs on a thread whose
 	// execution domain is PER_LINUX32 (setarch i686 / linux32: uname(2) then reports i686 to a 64-bit process) or UNAME26.
-	compileCount++
 	if compileCount%3 == 0 {
 		runtime.LockOSThread()
 		defer runtime.UnlockOSThread()
@@ -362,7 +381,7 @@ func runCase(h *polcase.Header, idx int, cs *polcase.Case, c *polcase.Conc, rng 
 	base := failure{Scope: h.Scope, CaseIndex: idx, Abstract: cs.Pol, Conc: c.Describe(), Policy: json.RawMessage(before)}
 	if pan != nil {
 		f := base
-		f.Kind, f.Why = "panic", fmt.Sprint("Policy.Assemble panicked: ", pan)
+		f.Kind, f.Why = "panic", "Policy.Assemble: "+watch.Text(pan)
 		fail(f)
 		return
 	}
@@ -692,7 +711,7 @@ func main() {
 	idx := 0
 	x86Arches := []*arch.Info{arch.X86_64}
 	otherArches := []*arch.Info{arch.I386, arch.ARM, arch.AARCH64}
-	for sc.Scan() {
+	for sc.Scan() && !watch.Stop() {
 		if first {
 			first = false
 			if err := json.Unmarshal(sc.Bytes(), &h); err != nil {
@@ -874,7 +893,7 @@ func doReplay(path string) int {
 	insts, err, pan := compile(&pol)
 	fmt.Printf("kind=%s expected=%q\n", rec.Kind, rec.Expected)
 	if pan != nil {
-		fmt.Println("observed: panic:", pan)
+		fmt.Println("observed:", watch.Text(pan))
 		return 1
 	}
 	if err != nil {
